@@ -17,6 +17,7 @@ from .. import anf, units
 from ..units import Lin, Log, Tup, TOP, BOOL, num
 from .common import struct_ob, formula_ob, guard, last_return, U
 from ..report import AnalysisError, Ob
+from ..term import Resolver, pmatch, find_all, abstract, anf_of
 
 REL = "inference/pdf/kde.py"
 FLOORS = {"kernel-form": 2, "region-tables": 3, "truncation-bound": 1, "units": 3, "units-result-types": 3}
@@ -85,10 +86,15 @@ def run(prog, tier):
             raise AnalysisError(f"anchor vanished: region loop in GaussianKDE.{mname}")
         h = R.sym("self.h")
         N = R.sym("size(self.sample)")
-        xs = [a for a in (env.get("dx") or R.const(0)).atoms() if a[0] == "sym"]
-        dx = env.get("dx")
-        if dx is None or len(xs) != 2:
-            raise AnalysisError(f"anchor vanished: dx = x - sample in GaussianKDE.{mname}")
+        # the displacement query point - kept sample, recovered from the atoms of the summand (independent of temporaries)
+        res_key = "pdf[g]" if what == "pdf" else "cdf[g]"
+        gotv = env.get(res_key)
+        syms = {a for a in gotv.all_atoms() if a[0] == "sym"} if isinstance(gotv, R) else set()
+        xa = [a for a in syms if a[1].startswith("x[") or a[1] == "x"]
+        sa_ = [a for a in syms if a[1].startswith("self.sample[")]
+        if len(xa) != 1 or len(sa_) != 1:
+            raise AnalysisError(f"anchor vanished: query point / kept samples in the summand of GaussianKDE.{mname} ({sorted(a[1] for a in syms)})")
+        dx = R.atom(xa[0]) - R.atom(sa_[0])
         is_arr = lambda a: a[0] == "sym" and a[1].startswith("self.sample")
         if what == "pdf":
             got = env.get("pdf[g]")
@@ -110,28 +116,81 @@ def run(prog, tier):
             obs.append(formula_ob("kernel-form", qual(ci, fn), got, want, REL, fn.lineno,
                                   what="cdf = sum over kept samples of (1 + erf((x-s)/(sqrt2 h))) / 2N + (samples dropped below)/N"))
 
-    # ---------------------------------------------------------------- region tables
-    txt = U(init)
-    c1 = ("lwr_inds = searchsorted(self.sample, mids - self.cutoff)" in txt
-          and "upr_inds = searchsorted(self.sample, mids + self.cutoff)" in txt
-          and "self.slices = [slice(l, u) for l, u in zip(lwr_inds, upr_inds)]" in txt
-          and "self.cdf_offsets = lwr_inds / self.sample.size" in txt)
-    obs.append(struct_ob("region-tables", qual(ci, init) + "[slices]", c1,
+    # ---------------------------------------------------------------- region tables (resolved terms)
+    rz = Resolver(init, prog, ci.module, ci)
+    attr_val = {}
+    for st in ast.walk(init):
+        if isinstance(st, ast.Assign) and len(st.targets) == 1 and isinstance(st.targets[0], ast.Attribute) and U(st.targets[0].value) == "self":
+            attr_val.setdefault(st.targets[0].attr, []).append(rz.term(st.value, st))
+    why = []
+    M = None
+    sl = attr_val.get("slices", [])
+    b = None
+    if len(sl) == 1:
+        b = pmatch(sl[0], "[slice(_l, _u) for _l, _u in zip(searchsorted(self.sample, _M - self.cutoff), searchsorted(self.sample, _M + self.cutoff))]")
+    if b is None:
+        why.append(f"self.slices is `{U(sl[0])[:300] if sl else None}`")
+    else:
+        M = b["_M"]
+        off = attr_val.get("cdf_offsets", [])
+        okoff = len(off) == 1 and any(pmatch(off[0], pt, {"_M": M}) is not None for pt in
+                                      ("searchsorted(self.sample, _M - self.cutoff) / self.sample.size",
+                                       "searchsorted(self.sample, _M - self.cutoff) / len(self.sample)"))
+        if not okoff:
+            why.append(f"self.cdf_offsets is `{U(off[0])[:300] if off else None}`, not the same lower indices divided by the sample size")
+    obs.append(struct_ob("region-tables", qual(ci, init) + "[slices]", not why,
                          "slices must run from searchsorted(sample, mid - cutoff) to searchsorted(sample, mid + cutoff) and the cdf "
-                         "offsets must be the same lower indices divided by the sample size", REL, init.lineno))
-    c2 = ("mids = linspace(self.sample[0], self.sample[-1], 2 ** n + 1)" in txt and "mids = 0.5 * (mids[1:] + mids[:-1])" in txt
-          and "self.tree = BinaryTree(n, (self.sample[0], self.sample[-1]))" in txt)
+                         "offsets must be the same lower indices divided by the sample size: " + "; ".join(why), REL, init.lineno))
+    why = []
+    if M is None:
+        why.append("region mid-points not identified")
+    else:
+        mt = ast.parse(M, mode="eval").body
+        ab, seen = abstract(mt, [("_E[1:]", "HI"), ("_E[:-1]", "LO")])
+        okm = False
+        try:
+            okm = anf_of(ab).eq((R.sym("HI") + R.sym("LO")) / 2) and all(len(v) == 1 for v in seen.values()) and set(seen) == {"HI", "LO"}
+        except Unsupported:
+            okm = False
+        E = None
+        if okm:
+            e1 = ast.parse(next(iter(seen["HI"])), mode="eval").body.value
+            e2 = ast.parse(next(iter(seen["LO"])), mode="eval").body.value
+            okm = U(e1) == U(e2)
+            E = e1
+        if not okm:
+            why.append(f"mid-points `{M[:200]}` are not the averages of consecutive edges")
+        else:
+            be = pmatch(E, "linspace(self.sample[0], self.sample[-1], 2 ** _n + 1)")
+            tr = attr_val.get("tree", [])
+            if be is None:
+                why.append(f"edges `{U(E)[:200]}` are not linspace(sample[0], sample[-1], 2**n + 1)")
+            elif not (len(tr) == 1 and pmatch(tr[0], "BinaryTree(_n, (self.sample[0], self.sample[-1]))", {"_n": be["_n"]}) is not None):
+                why.append(f"the look-up tree `{U(tr[0])[:200] if tr else None}` is not built for the same number of layers and end points")
     bt = prog.cls("BinaryTree")
-    btxt = U(bt.methods["__init__"])
-    c2 = c2 and "self.edges = linspace(limits[0], limits[1], 2 ** self.n + 1)" in btxt and "self.n = layers" in btxt
-    obs.append(struct_ob("region-tables", qual(ci, init) + "[mids]", c2,
-                         "region mid-points must be the mid-points of the very edges the tree uses (same end points, 2**n + 1 edges)",
-                         REL, init.lineno))
+    bti = bt.methods["__init__"]
+    rb = Resolver(bti, prog, bt.module, bt, inline_self=True)
+    lay, lim = bti.args.args[1].arg, bti.args.args[2].arg
+    ed = [rb.term(st.value, st) for st in ast.walk(bti) if isinstance(st, ast.Assign) and U(st.targets[0]) == "self.edges"]
+    if not (len(ed) == 1 and pmatch(ed[0], f"linspace({lim}[0], {lim}[1], 2 ** {lay} + 1)") is not None):
+        why.append(f"BinaryTree edges are `{U(ed[0]) if ed else None}`")
+    obs.append(struct_ob("region-tables", qual(ci, init) + "[mids]", not why,
+                         "region mid-points must be the mid-points of the very edges the tree uses (same end points, 2**n + 1 edges): "
+                         + "; ".join(why), REL, init.lineno))
     both = []
     for mname in ("__call__", "cdf"):
-        t = U(ci.methods[mname])
-        both.append("regions, index_groups = self.tree.region_groups(x)" in t and "self.sample[None, self.slices[r]]" in t
-                    and "for r, g in zip(regions, index_groups)" in t and "x[g, None]" in t)
+        fm = ci.methods[mname]
+        rm = Resolver(fm, prog, ci.module, ci)
+        xp = fm.args.args[1].arg
+        loops = [l for l in fm.body if isinstance(l, ast.For)]
+        okl = False
+        if len(loops) == 1 and isinstance(loops[0].target, ast.Tuple) and len(loops[0].target.elts) == 2:
+            rname, gname = U(loops[0].target.elts[0]), U(loops[0].target.elts[1])
+            it = rm.term(loops[0].iter, loops[0])
+            okl = pmatch(it, f"zip(self.tree.region_groups({xp})[0], self.tree.region_groups({xp})[1])") is not None
+            body_terms = [rm.term(st.value, st) for st in ast.walk(loops[0]) if isinstance(st, ast.Assign)]
+            okl = okl and any(find_all(t, f"{xp}[{gname}, None] - self.sample[None, self.slices[{rname}]]") for t in body_terms)
+        both.append(okl)
     obs.append(struct_ob("region-tables", f"{ci.module.name}.GaussianKDE[pdf/cdf siblings]", all(both),
                          "pdf and cdf must group the query points with the same tree look-up and use the same slice table", REL,
                          ci.node.lineno))
